@@ -57,13 +57,21 @@ func loadSrc(repo, rel string) *srcFile {
 		sf.file = nil
 		return sf
 	}
-	// rename-back normalisation of local identifiers (alpha.go); sum stays that of the file on disk
-	if src2 := renameBack(rel, sf.path, sf.src); len(src2) != len(sf.src) || string(src2) != string(sf.src) {
+	// rename-back normalisation (alphafn.go: unexported package-level function names; alpha.go: local
+	// identifiers); sum stays that of the file on disk
+	src1 := sf.src
+	switch {
+	case !strings.Contains(rel, "/"):
+		src1 = applyFnRenames(sf.path, src1, fnRenames(repo, "."))
+	case rel == "grammar/ast.go":
+		src1 = applyFnRenames(sf.path, src1, fnRenames(repo, "grammar"))
+	}
+	if src2 := renameBack(rel, sf.path, src1); len(src2) != len(sf.src) || string(src2) != string(sf.src) {
 		fset2 := token.NewFileSet()
 		if file2, err := parser.ParseFile(fset2, sf.path, src2, parser.ParseComments|parser.SkipObjectResolution); err == nil {
 			sf.src, sf.fset, sf.file = src2, fset2, file2
 			sf.renamed = true
-			fmt.Fprintf(os.Stderr, "xlate: %s: local identifiers renamed back to the pinned names (pins/locals.json)\n", rel)
+			fmt.Fprintf(os.Stderr, "xlate: %s: identifiers renamed back to the pinned names (pins/locals.json, pins/funcs.json)\n", rel)
 		}
 	}
 	return sf
